@@ -8,6 +8,8 @@
  failure, every continuity operation) are run through the real router with one SSE subscriber per
  stream attached from its first frame; afterwards each stream is read back from the raw log, through
  the code's replay, from the per-continuity sidecar, from the snapshot and by a late subscriber.
+ Generated histories (random sequences over the same alphabet with unusual but legal payloads, with or
+ without a torn sidecar and a restart at the end) go through the same oracle.
  TLC validates, per stream, the digests of the canonical JSON of each copy (ReplicasTrace).
  Round trip: every frame of the corpus and its payload mutants (unicode, control characters, 100 KB
  strings, empty collections, nested JSON, u64::MAX, optional fields absent / null) goes through
@@ -91,6 +93,102 @@ def scenarios():
         {"do": "message", "content": "m4 on the handoff thread"},
     ]})
     return s
+
+
+def raw_call(k, name, arguments, cid=None):
+    """a function call whose `arguments` string is given verbatim ("null", "{bad", ...)."""
+    item = {"type": "function_call", "id": f"item_{k}", "call_id": cid or f"call_{k}", "name": name, "arguments": arguments, "status": "completed"}
+    return sse({"type": "response.output_item.done", "output_index": k, "item": item})
+
+
+def generated_scenarios(n, seed):
+    """Histories drawn from the alphabet of everything a client can do (prompts whose provider answers are drawn from a pool, tool /
+    checkpoint commands linked and unlinked, tasks, every continuity operation, with unusual but legal payloads: absent / null / empty
+    arguments, unicode, CR LF, long and binary output), with or without the torn-sidecar restart at the end.  The oracle is the same:
+    the five copies of every stream, validated by ReplicasTrace."""
+    import random
+    rnd = random.Random(seed * 7919 + 17)
+    done = "data: [DONE]\n\n"
+    created = lambda n_: sse({"type": "response.created", "response": {"id": f"resp_{n_}"}})
+    text = lambda t: sse({"type": "response.output_text.delta", "delta": t})
+    ok = lambda body: {"status": 200, "chunks": [created(rnd.randrange(10**6)) + body + done]}
+    follow = ok(text("ok"))
+    prompts = [
+        ("text", lambda: [ok(text("plain answer"))]),
+        ("text_unicode_crlf", lambda: [ok(text("a\r\nb") + text("") + text(UNI) + text(" x"))]),
+        ("text_long", lambda: [ok(text("L" * 30000) + text("é" * 5000))]),
+        ("call_null_args", lambda: [ok(raw_call(0, "ls", "null")), follow]),
+        ("call_empty_args", lambda: [ok(raw_call(0, "bash", "{}")), follow]),
+        ("call_bad_json_args", lambda: [ok(raw_call(0, "read", "{bad")), follow]),
+        ("call_unknown_tool", lambda: [ok(call(0, "no_such_tool", {"x": None})), follow]),
+        ("call_write_read", lambda: [ok(call(0, "write", {"path": "g.txt", "content": "v" + UNI}) + call(1, "read", {"path": "g.txt"})), follow]),
+        ("call_bash_binary", lambda: [ok(call(0, "bash", {"command": "printf '\\377\\376\\000z'; printf 'e\\303' >&2"})), follow]),
+        ("call_bash_empty_output", lambda: [ok(call(0, "bash", {"command": "true"})), follow]),
+        ("provider_500", lambda: [{"status": 500, "content_type": "application/json", "chunks": ['{"error":{"message":"boom ü"}}']}]),
+        ("provider_junk", lambda: [{"status": 200, "chunks": ["data: {not json}\n\n" + ": comment\n\n" + text("after junk") + done]}]),
+        ("provider_empty_body", lambda: [{"status": 200, "chunks": [done]}]),
+    ]
+    commands = [
+        {"tool": "ls"}, {"tool": "ls", "args": None}, {"tool": "ls", "args": {}}, {"tool": "read", "args": {"path": "seed.txt"}},
+        {"tool": "write", "args": {"path": "c.txt", "content": ""}}, {"tool": "write", "args": {"path": "d/" + "é.txt", "content": UNI}},
+        {"tool": "bash", "args": {"command": "echo o; echo e >&2; exit 3"}}, {"tool": "bash", "args": {"command": "printf '\\377\\376'"}},
+        {"tool": "bash", "args": {"command": "true"}}, {"tool": "nope"}, {"tool": "grep", "args": {"pattern": "seed", "path": "."}},
+        {"checkpoint": {"action": "create", "label": "", "files": ["seed.txt"]}}, {"checkpoint": {"action": "create", "label": "cp " + UNI, "files": []}},
+        {"checkpoint": {"action": "rewind", "id": "@ckpt"}}, {"checkpoint": {"action": "rewind", "id": "nope"}},
+    ]
+    tasks = [
+        {"payload": {"tool": "bash", "args": {"command": "echo one; echo two >&2; printf 'é漢'; exit 2"}}},
+        {"payload": {"tool": "bash", "title": "t " + UNI, "args": {"command": "echo start; sleep 5"}}, "cancel_after_ms": 120},
+        {"payload": {"tool": "bash", "args": {"command": 12}}}, {"payload": {"tool": "bash", "args": None}}, {"payload": {"tool": "bash"}},
+        {"payload": {"tool": "bash", "args": {"command": "true"}}},
+        {"payload": {"tool": "bash", "args": {"command": "head -c 150000 /dev/zero | tr '\\000' x"}}},
+        {"payload": {"tool": "bash", "args": {"command": "printf '\\377\\376\\303'; printf '\\351' >&2"}}},
+        {"payload": {"tool": "bash", "args": {"command": "echo x", "cwd": "no/such"}}},
+        {"payload": {"tool": "ls", "args": {"path": "."}}},
+    ]
+    who = {"actor_id": "user", "origin": "verif"}
+    thread_ops = [
+        {"path": "compaction-checkpoint", "body": dict(who, summary_markdown="# s " + UNI, to_message_id="@last")},
+        {"path": "compaction-checkpoint", "body": dict(who, summary_markdown="", to_message_id="@last")},
+        {"path": "compaction-checkpoint", "body": dict(who, summary_markdown="x", to_message_id="no-such-message")},
+        {"path": "compaction-auto", "body": dict(who, stride_messages=1, max_new_checkpoints=2), "settle_ms": 400},
+        {"path": "compaction-auto-schedule", "body": dict(who, stride_messages=1, max_new_checkpoints=1), "settle_ms": 400},
+        {"path": "compaction-auto-schedule", "body": dict(who, stride_messages=2, max_new_checkpoints=3, dry_run=True), "settle_ms": 200},
+        {"path": "provider-cursor-rotate", "body": dict(who, reason="r " + UNI)},
+        {"path": "provider-cursor-rotate", "body": dict(who)},
+        {"path": "branch", "body": dict(who, title="child " + UNI, from_message_id="@last")},
+        {"path": "branch", "body": dict(who, title="")},
+        {"path": "branch", "body": dict(who, title="sw", from_message_id="@last"), "switch": True},
+        {"path": "handoff", "body": dict(who, title="handoff", summary_markdown="sum " + UNI), "switch": True},
+        {"path": "handoff", "body": dict(who, title="h2", summary_markdown="s")},
+    ]
+    out = []
+    for i in range(n):
+        steps, script, names = [], [], []
+        nsteps = rnd.randint(4, 9)
+        # every history starts with a prompt so that thread operations have a message to point at
+        kinds = ["message"] + [rnd.choice(["message", "message", "command", "command", "unlinked", "task", "thread_op", "thread_op"]) for _ in range(nsteps - 1)]
+        for kd in kinds:
+            if kd == "message":
+                nm, mk = rnd.choice(prompts)
+                script += mk()
+                steps.append({"do": "message", "content": rnd.choice(["m", "m " + UNI, "line1\r\nline2", "x" * 5000])})
+                names.append(nm)
+            elif kd in ("command", "unlinked"):
+                c = rnd.choice(commands)
+                steps.append({"do": kd, "input": c})
+                names.append(kd[0] + ":" + (c.get("tool") or "ckpt-" + c["checkpoint"]["action"]))
+            elif kd == "task":
+                t = rnd.choice(tasks)
+                steps.append(dict(t, do="task"))
+                names.append("task")
+            else:
+                o = rnd.choice(thread_ops)
+                steps.append(dict(o, do="thread_op"))
+                names.append(o["path"])
+        out.append({"id": f"gen-{seed}-{i}", "generated": True, "torn_sidecar": rnd.random() < 0.5, "config": {"stateless_history": rnd.random() < 0.5},
+                    "script": script, "steps": steps, "_names": names})
+    return out
 
 
 def canon(v):
@@ -200,21 +298,10 @@ def mutants(frame):
     return out
 
 
-def run(tier, seed):
-    v = Verdict(PROP, tier, seed)
-    wd = workdir(PROP)
-    thorough = tier == "thorough"
-    r = tlc.run("Replicas", "Replicas_ok.cfg", workers=6, timeout=900)
-    v.add_tlc(r, "Replicas (session, thread, task x 3 frames; sidecar append / rebuild; snapshot): LiveIsLog, SidecarIsPrefixOfLog, SnapshotIsLog, NothingExtra")
-    if not r.ok:
-        die_tool("Replicas violates Same")
-    r = tlc.run("Replicas", "Replicas_fail.cfg", workers=2, timeout=300)
-    v.add_tlc(r, "Replicas with a log append that may fail silently: counterexample expected (non-vacuity)")
-    if "Same" not in r.violated:
-        die_tool("Replicas (failing append) has no counterexample")
-    # ---- scenarios
-    sc = scenarios()
-    results = run_harness("fidelity", sc, wd, "fid", shards=len(sc), timeout=600)
+def judge_scenarios(v, sc, wd, thorough, tag="fid"):
+    """run the scenarios on the real router, validate the five copies of every stream with ReplicasTrace, report."""
+    cases_by_id = {c["id"]: c for c in sc}
+    results = run_harness("fidelity", [{k: x for k, x in c.items() if not k.startswith("_")} for c in sc], wd, tag, shards=min(len(sc), 14), timeout=1800)
     events = []
     corpus = {}
     seen_kinds = set()
@@ -240,7 +327,7 @@ def run(tier, seed):
             st["_ev"] = ev
         if res["frames_of_other_streams"]:
             v.drift({"case": res["id"], "note": f"{res['frames_of_other_streams']} log frames belong to streams the scenario did not create"})
-    p = os.path.join(wd, "replicas.ndjson")
+    p = os.path.join(wd, f"replicas-{tag}.ndjson")
     write_ndjson(p, events)
     r, rej = tlc.validate_trace("ReplicasTrace", "ReplicasTrace.cfg", p, timeout=600)
     v.add_tlc(r, f"ReplicasTrace: {len(events)} streams of {len(results)} scenarios, five copies each")
@@ -266,7 +353,28 @@ def run(tier, seed):
                 detail = f": frame {k} ({a[k].get('type')}) differs in {sorted(diff)[:4]}"
             else:
                 detail = f": {len(bb)} frames in the copy, {len(a)} in the log (first missing: {(a[k] if k < len(a) else bb[k]).get('type')})"
-        v.violation(f"scenario {cid}, {st['kind']} stream: {what}{detail}", {"engine": "fidelity", "scenario": cid, "guard": what, "stream_kind": st["kind"]})
+        v.violation(f"scenario {cid}, {st['kind']} stream: {what}{detail}", dict({"engine": "fidelity", "scenario": cid, "guard": what, "stream_kind": st["kind"]},
+                         **({"case": {k: x for k, x in cases_by_id[cid].items() if not k.startswith("_")}, "steps": cases_by_id[cid].get("_names")} if cases_by_id[cid].get("generated") else {})))
+    return results, events, corpus, seen_kinds, nstreams
+
+
+def run(tier, seed):
+    v = Verdict(PROP, tier, seed)
+    wd = workdir(PROP)
+    thorough = tier == "thorough"
+    r = tlc.run("Replicas", "Replicas_ok.cfg", workers=6, timeout=900)
+    v.add_tlc(r, "Replicas (session, thread, task x 3 frames; sidecar append / rebuild; snapshot): LiveIsLog, SidecarIsPrefixOfLog, SnapshotIsLog, NothingExtra")
+    if not r.ok:
+        die_tool("Replicas violates Same")
+    r = tlc.run("Replicas", "Replicas_fail.cfg", workers=2, timeout=300)
+    v.add_tlc(r, "Replicas with a log append that may fail silently: counterexample expected (non-vacuity)")
+    if "Same" not in r.violated:
+        die_tool("Replicas (failing append) has no counterexample")
+    # ---- scenarios: the three written ones (every reachable frame type) + generated histories
+    sc = scenarios() + generated_scenarios(500 if thorough else 30, seed)
+    results, events, corpus, seen_kinds, nstreams = judge_scenarios(v, sc, wd, thorough)
+    v.cov["generated_histories"] = len(sc) - 3
+    v.cov["generated_history_steps"] = sorted({n_ for c in sc for n_ in c.get("_names", [])})
     # frame types the scenarios cannot reach here (PTY control, same-session rewind, scheduler decision): written from their definitions
     def env(kind_, sk, n):
         return {"id": f"00000000-0000-4000-8000-00000000000{n}", "session_id": f"synthetic-{n}", "stream_kind": sk, "stream_id": f"synthetic-{n}",
@@ -357,6 +465,15 @@ def replay(path, seed):
         rr = res["results"][0]
         print(json.dumps(rr)[:2000])
         if not rr["parsed"] or subsumes(rr["again"], c["frame"]) or (c.get("guard") == "extra" and canon(strip_nulls(rr["again"])) != canon(strip_nulls(c["frame"]))):
+            print(f"VIOLATION property={PROP} replay={path}")
+            return 1
+        return 0
+    if c.get("engine") == "fidelity" and isinstance(c.get("case"), dict):
+        v = Verdict(PROP, "replay", seed)
+        judge_scenarios(v, [dict(c["case"], generated=True)], wd, False, tag="replay")
+        for what, _ in v.violations:
+            print(what[:400])
+        if v.violations:
             print(f"VIOLATION property={PROP} replay={path}")
             return 1
         return 0
